@@ -123,6 +123,21 @@ def emit_logics(chk, g, facts, rules, pid='C01'):
                         f'Lemma neg_{i} : fl_hd FL_{i} = false -> neg_flips_t (s_t (fl_S FL_{i})) = true.\n'
                         f'Proof. {ntac}. Qed.\n'
                         f'Definition C01_{i} := C01.C01_sound FL_{i} ok_{i} neg_{i}.\n')
+        if pid == 'C01':
+            for br in bad:
+                # a rule whose soundness obligation is refuted is outside the soundness theorem: report it
+                kn = chk.known.get((chk.pid, f'sound:{n}:{br}'))
+                rl = next((it['rule'] for it in data[n] if it['rule']['name'] == br), None)
+                inp = None
+                if not (kn and kn.get('status') == 'open') and rl is not None and rl.get('kind') == 'op':
+                    import c03
+                    inp = c03.search_failing(n, rl)
+                    if inp and not inp['verdict_valid']:
+                        inp = None      # only an unsound 'valid' is a C01 failure
+                chk.violation(f'sound:{n}:{br}',
+                              f"{n}: the soundness obligation of rule {br} is refuted, so 'valid' verdicts obtained through it are not covered"
+                              + (f"; unsound verdict: {inp['argstr']} is reported valid but has a countermodel" if inp else ''),
+                              dict(kind='proof', logic=n, rule=br, **(inp or {})), found_input=bool(inp))
         info[n] = dict(ok=base_ok, bad_rules=bad, n_tf=len(good_tf), n_g=len(good_g))
         chk.obligation(f'{n}:fsound_ok({len(good_tf)} tf rules, {len(good_g)} quantifier/modal rules, closure, tables, generalisers)', base_ok)
         if not base_ok:
